@@ -25,7 +25,9 @@ UNIVERSE = ("a", "b", "c", "a.b", "x-1", "k=v", "ab", "A")
 SUBSETS = [tuple(t for i, t in enumerate(UNIVERSE) if m >> i & 1) for m in range(256)]
 SUBSET_LISTS = [list(s) for s in SUBSETS]
 OPS_QUICK = ("a", "b", "a.b", "k=v", "a*", "?b")
-OPS_FULL = ("a", "b", "c", "a.b", "x-1", "k=v", "a*", "?b", "[ab]c", "*.b")
+# "a*a" / "ab*b": single-star patterns whose prefix and suffix overlap inside a shorter tag ("a", "ab") - a
+# startswith/endswith shortcut without a length test answers them wrongly
+OPS_FULL = ("a", "b", "c", "a.b", "x-1", "k=v", "a*", "?b", "[ab]c", "*.b", "a*a", "ab*b")
 OPS_4 = ("a", "b", "x-1", "a*")
 
 
